@@ -119,12 +119,12 @@ MENU_NC = [MENU12[0], MENU12[3], MENU12[9], MENU12[11], ev(["obs"], 1, "all", si
 
 
 def big_menu(small=False):
-    sets = [(["obs", "fcst"], False), (["obs"], True), (["fcst"], True), (["pit"], True), (["obs", P1], False),
+    sets = [(["obs", "fcst"], False), (["fcst", "obs"], False), (["obs"], True), (["fcst"], True), (["pit"], True), (["obs", P1], False),
             (["fcst", "pit"], False), (["obs", P1, "fcst"], False), ([Q5, P1, "fcst", "obs"], False)]
     axes = [("all", None), ("no", 0), ("time", 0), ("time", 1), ("leadtime", 0), ("leadtime", 1), ("location", 0),
             ("location", 1), ("month", 0)]
     if small:
-        sets = sets[:3] + sets[6:]
+        sets = sets[:4] + sets[7:]
         axes = [("all", None), ("no", 0), ("time", 1), ("leadtime", 0), ("location", 1)]
     menu = []
     for roles, single in sets:
